@@ -150,6 +150,9 @@ def rich_world(rng, d, unresolvable=True):
     if d != 3:
         S["required"] = ["zz1", "zz2"]       # several top-level errors -> several yield points
     S["additionalProperties"] = False
+    # values that are equal in Python but different JSON values must be told apart on a reused validator too
+    S["type"] = ["object", "boolean", "null", "array"]
+    S["items"] = {"type": ["boolean", "string"]}
     ig = InstGen(rng, leaf)
     ig2 = InstGen(rng, leaf2)
 
@@ -190,7 +193,8 @@ def rich_world(rng, d, unresolvable=True):
         if rng.random() < 0.5:
             out["extra" + str(rng.randrange(3))] = 1
         return out
-    insts = [inst() for _ in range(3)] + [rng.choice([1, "s", [], None])]
+    insts = [inst() for _ in range(3)] + [rng.choice([1, "s", [], None])] + \
+        rng.sample([True, 1, 1.0, False, 0, 0.0, [True], [1], [1.0], [0, False], "1", None], 4)
     refs = ["#/definitions/leaf", "#/definitions/deep", H + "h0.json", H + "h0.json#/definitions/x", H + "h1.json",
             R.STORE_DIR + "s0.json", "#/definitions/nope", H + "missing.json", "#/definitions/deep/properties/x"]
     return World(d, S, store, hdocs, insts, refs)
